@@ -281,6 +281,8 @@ impl Table for DisplacedTable {
     fn clear(&mut self) {
         self.uf.reset();
         self.displaced.clear();
+        self.lookup_table.clear();
+        while self.buffered_writes.pop().is_some() {}
     }
 
     fn all(&self) -> Subset {
